@@ -13,8 +13,8 @@ rows = {}
 ALT = {'C15': ['C11', 'C06'], 'C06': ['C15'], 'C20': ['C06'], 'C16': ['C17', 'C11'], 'C11': ['C17'], 'C17': ['C11'], 'C07': ['C10', 'C18'],
        'C08': ['C04'], 'C13': ['C12'], 'C12': ['C13'], 'C02': ['C13'], 'C09': ['C07'], 'C14': ['C13'], 'C18': ['C07'], 'C10': ['C07'], 'C01': ['C07'],
        'C03': ['C16'], 'C04': ['C08'], 'C19': ['C13'], 'C05': []}
-if os.path.exists(V + '/seeded/matrix.json'):
-    rows = json.load(open(V + '/seeded/matrix.json'))
+if os.path.exists(os.environ.get('MATRIX_OUT', V + '/seeded/matrix.json')):
+    rows = json.load(open(os.environ.get('MATRIX_OUT', V + '/seeded/matrix.json')))
 for d in sorted(glob.glob(V + '/seeded/C*-*')):
     name = os.path.basename(d)
     prop = name.split('-')[0]
@@ -38,4 +38,4 @@ for d in sorted(glob.glob(V + '/seeded/C*-*')):
                 rows[name]['first_report_other'] = rep2
                 break
     print(name, status, flush=True)
-    json.dump(rows, open(V + '/seeded/matrix.json', 'w'), indent=1)
+    json.dump(rows, open(os.environ.get('MATRIX_OUT', V + '/seeded/matrix.json'), 'w'), indent=1)
